@@ -364,8 +364,99 @@ def r5_snapshot_spans_all_directories(repo=None):
     return r
 
 
+def r6_capsule_has_one_owner(repo=None):
+    """'once the writer is closed the reader sees everything': close() publishes the last file by deleting the attribute that
+    holds the extension's writer object - the object's destructor closes and renames the file, and it runs only when that was
+    the *last* reference.  So the object may be read only as a direct argument of an extension call (borrowed for the call,
+    C frames are not part of a traceback), tested, or deleted.  A second reference in a local that is alive across a call or a
+    raise survives in the traceback of an exception the caller still holds: close() then returns with the last file still
+    named tmp.* and no reader sees its samples."""
+    r = Rule("C09.R6", "the extension's writer object has one reference (the attribute close() deletes): no alias alive across a call")
+    m = pyfront.mod("digital_rf_hdf5", repo)
+    cls = [c for c in m.tree.body if isinstance(c, ast.ClassDef) and c.name == "DigitalRFWriter"]
+    if not cls:
+        raise AnalysisError("class DigitalRFWriter not found")
+    cls = cls[0]
+    # the attribute: assigned from the extension's init call
+    attr = None
+    for n in ast.walk(cls):
+        if isinstance(n, ast.Assign) and isinstance(n.value, ast.Call) and (pyfront.call_name(n.value) or "").startswith("_py_rf_write_hdf5.") \
+                and (pyfront.call_name(n.value) or "").endswith("init") and len(n.targets) == 1:
+            d = pyfront.dotted(n.targets[0]) or ""
+            if d.startswith("self."):
+                attr = d[5:]
+    if attr is None:
+        raise AnalysisError("DigitalRFWriter: the attribute holding the extension's writer object (assigned from _py_rf_write_hdf5.init) not found")
+    close = [f for f in cls.body if isinstance(f, ast.FunctionDef) and f.name == "close"]
+    if not close or not any(isinstance(n, ast.Delete) and any(pyfront.dotted(t) == "self." + attr for t in n.targets) for n in ast.walk(close[0])):
+        raise AnalysisError("DigitalRFWriter.close: `del self.%s` not found" % attr)
+    methods = [f for f in ast.walk(cls) if isinstance(f, (ast.FunctionDef, ast.Lambda))]
+    parent = {}
+    for n in ast.walk(cls):
+        for ch in ast.iter_child_nodes(n):
+            parent[ch] = n
+
+    def owner_fn(n):
+        while n in parent:
+            n = parent[n]
+            if isinstance(n, (ast.FunctionDef, ast.Lambda)):
+                return n
+        return None
+
+    def is_ext_call(c):
+        return isinstance(c, ast.Call) and (pyfront.call_name(c) or "").startswith("_py_rf_write_hdf5.")
+
+    n_sites = [0]
+
+    def judge(expr, what, depth=0):
+        """expr evaluates to the writer object: how is the value used?"""
+        if depth > 3:
+            raise AnalysisError("the extension's writer object is handed through more than 3 helpers")
+        fn = owner_fn(expr)
+        fname = getattr(fn, "name", "<lambda>")
+        q = "DigitalRFWriter." + fname
+        par = parent.get(expr)
+        n_sites[0] += 1
+        site = "%s:%s %s `%s`" % (m.rel, expr.lineno, q, norm(ast.unparse(par))[:60])
+        if is_ext_call(par) and expr in par.args:
+            r.ok(site, "%s borrowed by the extension call" % what)
+        elif isinstance(par, ast.UnaryOp) and isinstance(par.op, ast.Not) or isinstance(par, (ast.If, ast.While, ast.BoolOp, ast.IfExp)) and getattr(par, "test", None) is expr \
+                or (isinstance(par, ast.Compare) and all(isinstance(o, (ast.Is, ast.IsNot)) for o in par.ops)):
+            r.ok(site, "%s only tested" % what)
+        elif isinstance(par, ast.Return):
+            callers = [c for c in ast.walk(cls) if isinstance(c, ast.Call) and pyfront.dotted(c.func) == "self." + fname]
+            if not callers:
+                raise AnalysisError("%s returns the extension's writer object and is not called inside the class: not decided" % q)
+            for c in callers:
+                judge(c, "the object returned by %s()" % fname, depth + 1)
+        elif isinstance(par, ast.Assign) and len(par.targets) == 1 and isinstance(par.targets[0], ast.Name) and isinstance(fn, ast.FunctionDef):
+            v = par.targets[0].id
+            later = [x for x in ast.walk(fn) if isinstance(x, (ast.Call, ast.Raise)) and x is not expr and (
+                x.lineno > par.end_lineno or (x.lineno == par.end_lineno and x.col_offset > par.end_col_offset))]
+            dels = [x for x in ast.walk(fn) if isinstance(x, ast.Delete) and any(isinstance(t, ast.Name) and t.id == v for t in x.targets)]
+            if later and not dels:
+                r.violation(m.rel, q, "%s = %s" % (v, norm(ast.unparse(par.value))[:60]), "a second reference to the extension's writer object "
+                            "in local `%s`, alive across `%s` (line %s): when that raises, the traceback keeps the frame and with it the "
+                            "object, `del self.%s` in close() is then not the last reference - the destructor that closes and renames "
+                            "the last file does not run and readers do not see its samples after close()" % (
+                                v, norm(ast.unparse(later[0]))[:40], later[0].lineno, attr), line=par.lineno)
+            elif dels:
+                raise AnalysisError("%s: local alias `%s` of the writer object is deleted again: lifetime not decided" % (q, v))
+            else:
+                r.ok(site, "%s bound to `%s`, no call or raise while it is alive" % (what, v))
+        else:
+            raise AnalysisError("%s: use of the extension's writer object in `%s` not recognised (stored, passed to Python code or "
+                                "captured): whether close() still drops the last reference is not decided" % (q, norm(ast.unparse(par))[:70]))
+
+    for n in ast.walk(cls):
+        if isinstance(n, ast.Attribute) and isinstance(n.ctx, ast.Load) and pyfront.dotted(n) == "self." + attr:
+            judge(n, "self.%s" % attr)
+    r.guard(5)
+    return r
+
+
 def rules(repo=None):
-    return [lambda: r5_snapshot_spans_all_directories(repo), _rebrand(lambda: c02.r1_tmp_provenance(repo), "C09.P1"), _rebrand(lambda: c02.r2_publish_after_close(repo), "C09.P2"),
+    return [lambda: r5_snapshot_spans_all_directories(repo), lambda: r6_capsule_has_one_owner(repo), _rebrand(lambda: c02.r1_tmp_provenance(repo), "C09.P1"), _rebrand(lambda: c02.r2_publish_after_close(repo), "C09.P2"),
             _rebrand(lambda: c02.r3_no_writer_of_final(repo), "C09.P3"), _rebrand(lambda: c02.r4_staged_creation(repo), "C09.P4"),
             _rebrand(lambda: c02.r5_readers_ignore_tmp(repo), "C09.P5"),
             _rebrand(lambda: c02.r6_identity_stable_until_published(repo), "C09.P6"),
@@ -388,8 +479,11 @@ EXPLANATION = (
     'POSIX rename atomicity these imply that a reader sees exactly the finalized files and that set only grows. R5: the '
     'per-directory read step (which probes and opens) may not sit in the loop over the top-level directories of read / '
     'get_continuous_blocks - one snapshot over all directories before anything is read; on the pinned tree it does '
-    '(recorded finding F55, printed as KNOWN-FINDING). Does NOT decide failures outside the protocol (EMFILE, '
-    'permissions) or timing.')
+    '(recorded finding F55, printed as KNOWN-FINDING). R6: close() publishes the last file by deleting the one attribute '
+    "that holds the extension's writer object (its destructor closes and renames); every read of that attribute is a "
+    'direct argument of an extension call, a test, or the delete - a second reference in a local alive across a call or '
+    'raise (directly or through a helper that returns the object) survives in a traceback and is reported, any other use '
+    'is not decided. Does NOT decide failures outside the protocol (EMFILE, permissions) or timing.')
 TECHNIQUE = ("C02's protocol rules + package call graph reachability (read roles), CFG checks of vanished-file tolerance, cache key def-use")
 ASSUMPTIONS = c02.ASSUMPTIONS + ["a finalized RF file is never modified (C02.R3), so cached index data cannot go stale"]
 FILES = c02.FILES
